@@ -563,8 +563,9 @@ class TFLiteSupportedOperators:
         "For depth multipliers > 1, IFM channels must be 1 and OFM channels must be equal to the depth multiplier"
         depth_multiplier = op.attrs.get("depth_multiplier", 1)
         if depth_multiplier > 1:
-            ifm_channels = op.ifm.shape[3]
-            ofm_channels = op.ofm.shape[3]
+            # feature maps of lower rank are NHWC with the leading dimensions set to 1
+            ifm_channels = full_shape(4, op.ifm.shape, 1)[3]
+            ofm_channels = full_shape(4, op.ofm.shape, 1)[3]
             valid = (ifm_channels == 1) and (ofm_channels == depth_multiplier)
             extra = (
                 f"Op has ifm_channels={ifm_channels}, ofm_channels={ofm_channels}"
@@ -584,9 +585,10 @@ class TFLiteSupportedOperators:
         stride_w, stride_h = op.get_kernel_stride()
         stride_min = 1
         stride_max_h = 3
-        ifm_width = op.ifm.shape[2]
-        ofm_height = op.ofm.shape[1]
-        ofm_width = op.ofm.shape[2]
+        # feature maps of lower rank are NHWC with the leading dimensions set to 1
+        ifm_width = full_shape(4, op.ifm.shape, 1)[2]
+        ofm_height = full_shape(4, op.ofm.shape, 1)[1]
+        ofm_width = full_shape(4, op.ofm.shape, 1)[2]
 
         stride_h_valid = ofm_height == 1 or stride_min <= stride_h <= stride_max_h
 
@@ -628,7 +630,7 @@ class TFLiteSupportedOperators:
         s_w = op.kernel.stride.x
         s_h = op.kernel.stride.y
         k_h = op.kernel.height
-        i_h = op.ifm.shape[1]
+        i_h = full_shape(4, op.ifm.shape, 1)[1]
         valid = False
         if s_w == 1 and s_h == 1:
             valid = True
@@ -649,6 +651,8 @@ class TFLiteSupportedOperators:
             h = op.kernel.stride.y
             ifm_shape = op.ifm.shape
             ofm_shape = op.ofm.shape
+            if len(ifm_shape) != 4 or len(ofm_shape) != 4:
+                return False, f"Op has ifm_shape={ifm_shape}, ofm_shape={ofm_shape}"
             valid = (ofm_shape[1] == (ifm_shape[1] * h)) and (ofm_shape[2] == (ifm_shape[2] * w))
             return valid, f"Op has ifm_shape={ifm_shape}, ofm_shape={ofm_shape} and stride WxH as {w}x{h}"
         return True, "Op has padding=VALID"
@@ -664,6 +668,8 @@ class TFLiteSupportedOperators:
             k_h = op.kernel.height
             ifm_shape = op.ifm.shape
             ofm_shape = op.ofm.shape
+            if len(ifm_shape) != 4 or len(ofm_shape) != 4:
+                return False, f"Op has ifm_shape={ifm_shape}, ofm_shape={ofm_shape}"
             height_check = ofm_shape[1] == (ifm_shape[1] * s_h + max(k_h - s_h, 0))
             width_check = ofm_shape[2] == (ifm_shape[2] * s_w + max(k_w - s_w, 0))
             valid = height_check and width_check
@@ -731,14 +737,14 @@ class TFLiteSupportedOperators:
         # Easier to start with False condition as very few cases result in a supported resize
         valid = False
         ifm_shape = op.ifm.shape
-        ifm_shape_h = ifm_shape[1]
-        ifm_shape_w = ifm_shape[2]
         ofm_shape = op.ofm.shape
-        ofm_shape_h = ofm_shape[1]
-        ofm_shape_w = ofm_shape[2]
 
         align_corners = op.attrs.get("align_corners", False)
-        if len(ifm_shape) == 4:
+        if len(ifm_shape) == 4 and len(ofm_shape) == 4:
+            ifm_shape_h = ifm_shape[1]
+            ifm_shape_w = ifm_shape[2]
+            ofm_shape_h = ofm_shape[1]
+            ofm_shape_w = ofm_shape[2]
             # Valid if IFM W and H are both 1, or IFM and OFM shape are the same
             if ((ifm_shape_h == 1) and (ifm_shape_w == 1)) or (ifm_shape == ofm_shape):
                 valid = True
